@@ -137,9 +137,9 @@ func genQuery(t *rapid.T) string {
 	return strings.Join(parts, "&")
 }
 
-var e2eReqHeaders = []string{"X-Custom-A", "x-custom-b", "Accept", "User-Agent", "Content-Type", "Accept-Encoding", "Cookie", "If-None-Match", "X-Remote-User", "Accept-Language", "X-Request-Id", "Warning", "Origin"}
+var e2eReqHeaders = []string{"X-Custom-A", "x-custom-b", "Accept", "User-Agent", "Content-Type", "Accept-Encoding", "Cookie", "If-None-Match", "X-Remote-User", "Accept-Language", "X-Request-Id", "Warning", "Origin", "X-Real-Ip", "Forwarded"}
 var hopByHop = []string{"Keep-Alive", "Proxy-Authenticate", "Proxy-Authorization", "Te", "Trailer", "Proxy-Connection"}
-var headerVals = []string{"v", "a, b", "x=y; z", "text/plain", "\"etag\"", "é", "application/json", "identity", "a b"}
+var headerVals = []string{"198.51.100.9", "v", "a, b", "x=y; z", "text/plain", "\"etag\"", "é", "application/json", "identity", "a b"}
 
 var e2eRespHeaders = []string{"X-Resp-A", "Set-Cookie", "Content-Type", "Cache-Control", "Warning", "Location", "Etag", "X-Kubernetes-Pf-Flowschema-Uid", "Retry-After", "Www-Authenticate", "Content-Language",
 	"Access-Control-Allow-Origin", "Access-Control-Allow-Credentials", "Access-Control-Allow-Methods", "Access-Control-Allow-Headers", "Access-Control-Expose-Headers", "Access-Control-Max-Age",
